@@ -357,6 +357,14 @@ func (g *gen) buildCase(h *htab, nops int, corpus []func(m bsmsg.BitSwapMessage)
 			case y < 5: // block for a CID that may have a presence / entry already
 				b = g.honestBlock()
 				g.cids[g.intn(len(g.cids))] = b.Cid()
+			case y >= 7 && y < 10: // CIDv0 next to CIDv1 dag-pb/sha2-256: prefixes that differ in the version only
+				pf := cid.Prefix{Version: uint64(g.intn(2)), Codec: cid.DagProtobuf, MhType: mh.SHA2_256, MhLength: 32}
+				d := g.data()
+				if len(blks) > 0 && g.intn(3) == 0 {
+					d = blks[g.intn(len(blks))].RawData()
+				}
+				c, _ := safeSum(pf, d)
+				b, _ = blocks.NewBlockWithCid(d, c)
 			case y < 7 && len(blks) > 0: // same data under another prefix
 				old := blks[g.intn(len(blks))]
 				if c, ok := safeSum(g.goodPrefix(), old.RawData()); ok {
@@ -638,15 +646,40 @@ func TestC34(t *testing.T) {
 	}
 	H, B := pb.Message_Wantlist_Have, pb.Message_Wantlist_Block
 	corpus := [][]func(m bsmsg.BitSwapMessage) opRec{
-		{addE(c0, 5, H, false), addE(c0, 7, B, true)},                         // have then block: upgraded, priority kept, sdh set
-		{addE(c0, 5, B, true), addE(c0, 7, H, false)},                         // block then have: stays block, priority kept
-		{addE(c0, 5, H, false), addE(c0, 7, H, false)},                        // same type: priority replaced
-		{addE(c0, 5, B, false), cancel(c0), addE(c0, 9, B, false)},            // cancel is sticky
-		{cancel(c0), addE(c0, 9, H, true)},                                    // cancel first
-		{addE(c0, 5, H, true), addE(c0, 6, B, false), addE(c0, 7, H, false)},  // after upgrade a have no longer sets priority
-		{addP(hb.Cid(), pb.Message_Have), addB(hb)},                           // block removes presence
-		{addB(hb), addP(hb.Cid(), pb.Message_DontHave), addP(c1, 1)},          // presence for a held block ignored
-		{addE(c0, 1, B, false), addE(c1, 2, H, true), addB(hb), addP(c1, 0)},  // plain mixed message
+		{addE(c0, 5, H, false), addE(c0, 7, B, true)},                        // have then block: upgraded, priority kept, sdh set
+		{addE(c0, 5, B, true), addE(c0, 7, H, false)},                        // block then have: stays block, priority kept
+		{addE(c0, 5, H, false), addE(c0, 7, H, false)},                       // same type: priority replaced
+		{addE(c0, 5, B, false), cancel(c0), addE(c0, 9, B, false)},           // cancel is sticky
+		{cancel(c0), addE(c0, 9, H, true)},                                   // cancel first
+		{addE(c0, 5, H, true), addE(c0, 6, B, false), addE(c0, 7, H, false)}, // after upgrade a have no longer sets priority
+		{addP(hb.Cid(), pb.Message_Have), addB(hb)},                          // block removes presence
+		{addB(hb), addP(hb.Cid(), pb.Message_DontHave), addP(c1, 1)},         // presence for a held block ignored
+		{addE(c0, 1, B, false), addE(c1, 2, H, true), addB(hb), addP(c1, 0)}, // plain mixed message
+	}
+
+	// directed: blocks whose CID prefixes agree on codec / hash / length and differ in the CID version
+	mkB := func(v uint64, codec uint64, d []byte) blocks.Block {
+		c, ok := safeSum(cid.Prefix{Version: v, Codec: codec, MhType: mh.SHA2_256, MhLength: 32}, d)
+		if !ok {
+			t.Fatal("Prefix.Sum failed for a sha2-256 prefix")
+		}
+		b, err := blocks.NewBlockWithCid(d, c)
+		if err != nil {
+			t.Fatal(err)
+		}
+		return b
+	}
+	pbc := uint64(cid.DagProtobuf)
+	d1, d2, d3 := []byte{1, 2, 3}, []byte{4, 5}, []byte{6}
+	versionCorpus := [][]func(m bsmsg.BitSwapMessage) opRec{
+		{addB(mkB(0, pbc, d1)), addB(mkB(1, pbc, d2))},                            // v0 + v1 dag-pb, different data
+		{addB(mkB(1, pbc, d1)), addB(mkB(0, pbc, d2))},                            // v1 dag-pb + v0
+		{addB(mkB(0, pbc, d1)), addB(mkB(1, pbc, d2)), addB(mkB(1, cid.Raw, d3))}, // v0 + v1 dag-pb + v1 raw
+		{addB(mkB(0, pbc, d1)), addB(mkB(1, pbc, d1))},                            // the same data under v0 and v1
+		{addB(mkB(1, pbc, d1)), addB(mkB(0, pbc, d2)), addB(mkB(1, pbc, d3)), addB(mkB(0, pbc, d3))},
+	}
+	for rep := 0; rep < 4; rep++ { // Go map iteration: several runs so that both orders occur
+		corpus = append(corpus, versionCorpus...)
 	}
 
 	emitBuild := func(nops int, cp []func(m bsmsg.BitSwapMessage) opRec) {
